@@ -755,7 +755,10 @@ def coarse_freq(env, grid_freq, kw=None, p=None):
     if rng.random() >= p:
         return None
     if kw is not None and ("start" in kw or "end" in kw):
-        return None
+        # an own window next to an own frequency: EAO refuses grids the window reaches beyond (ValueError) and accepts the
+        # others, so histories contain refused calls followed by accepted ones on the same object
+        if rng.random() >= 0.35:
+            return None
     if grid_freq in CAL_FREQS:
         return None
     opts = {"15min": ["h", "4h"], "h": ["4h", "d", "2h"], "4h": ["d", "8h"], "d": ["2d"]}[grid_freq]
@@ -1039,6 +1042,8 @@ def gen_chp(env, nodes, grid_freq="h", cls=None, need_bool=False):
     if cls == "CHPAsset_with_min_load_costs":
         kw["min_load_threshhold"] = round(mx * 0.6, 1)
         kw["min_load_costs"] = round(rng.uniform(1, 20), 1)
+        if rng.random() < 0.2:
+            kw["min_load_threshhold"] = None     # explicitly "no threshold" (the constructor's default is 0.)
     if rng.random() < 0.15:
         mnT, mxT = gen_take(env, 0.5 * mx, 1, k=1)
         kw["max_take"] = mxT
@@ -1085,7 +1090,7 @@ def gen_orderbook(env, node):
 
 def gen_scaled(env, base_aid):
     rng = env.rng
-    kw = common_kw(env, asset_name(env), p_window_none=0.85)
+    kw = common_kw(env, asset_name(env), p_window_none=0.7)
     kw["base_asset"] = {"$asset": base_aid}
     mx = rng.choice([1., 2., 5.])
     kw["max_scale"] = mx
